@@ -29,6 +29,9 @@ GuardCases == UNION {{ [to |-> NilItem, from |-> Embedded(g, 1)], [to |-> Embedd
                        [to |-> Embedded(g, 1), from |-> With(Embedded(g, 1), "type", Str("Video"))],
                        [to |-> With(Embedded(g, 1), "type", Str("Video")), from |-> Embedded(g, 1)] } : g \in CopyTypes}
               \cup {[to |-> Embedded(g, 1), from |-> Embedded(g, 1)] : g \in {"Activity", "IntransitiveActivity", "Question", "Link"}}
+              \* one side untyped: a typed `to` must refuse an untyped `from`; an untyped `to` takes the type of `from`
+              \cup UNION {{ [to |-> Embedded(g, 1), from |-> [Embedded(g, 1) EXCEPT !.p = Restrict(@, DOMAIN @ \ {"type"})]],
+                            [to |-> [Embedded(g, 1) EXCEPT !.p = Restrict(@, DOMAIN @ \ {"type"})], from |-> Embedded(g, 1)] } : g \in {"Object", "Actor", "Place"}}
 AllCopy == OneTerm \cup TwoTerms \cup GuardCases
 GenInit == mto = <<>> /\ mfrom = <<>> /\ phase = "gen"
 GenNext == FALSE /\ UNCHANGED vars
